@@ -165,6 +165,49 @@ func opUndelegate(w *World) *Op {
 	return one("undelegate", d, MsgUndelegate(d, v, amt))
 }
 
+// opRetireValidator makes every delegator (the operator included) undelegate everything from one validator: it leaves the
+// bonded set and, once its unbonding period has elapsed with no shares left, x/staking removes it (AfterValidatorRemoved).
+func opRetireValidator(w *World) *Op {
+	sk := w.P.PApp.StakingKeeper
+	ctx := w.P.Ctx()
+	bonded := 0
+	for _, sv := range w.StakingSnapshot(ctx) {
+		if sv.Bonded() && !sv.Jailed {
+			bonded++
+		}
+	}
+	if bonded < 5 {
+		return nil
+	}
+	v := w.randVal()
+	if v.Idx < 3 { // keep a stable core so that chains stay alive
+		return nil
+	}
+	val, err := sk.GetValidator(ctx, v.ValAddr)
+	if err != nil {
+		return nil
+	}
+	dels, err := sk.GetValidatorDelegations(ctx, v.ValAddr)
+	if err != nil || len(dels) == 0 {
+		return nil
+	}
+	byAddr := map[string]*Account{}
+	for _, a := range w.AcctList {
+		byAddr[a.Addr.String()] = a
+	}
+	op := &Op{Name: "retire-validator"}
+	for _, d := range dels {
+		a := byAddr[d.DelegatorAddress]
+		amt := val.TokensFromShares(d.Shares).TruncateInt64()
+		if a == nil || amt <= 0 {
+			return nil
+		}
+		op.Specs = append(op.Specs, TxSpec{Signer: a, Msgs: []sdk.Msg{MsgUndelegate(a, v, amt)}, Tag: "undelegate:retire"})
+	}
+	w.Op("retire validator val%d: %d delegators undelegate everything", v.Idx, len(op.Specs))
+	return op
+}
+
 func opRedelegate(w *World) *Op {
 	d := w.randDelegator()
 	src, dst := w.randVal(), w.randVal()
@@ -393,6 +436,36 @@ func opUpdateConsumer(w *World) *Op {
 	case 0:
 		msg.PowerShapingParameters = w.randPowerShaping()
 		what = "power-shaping"
+		// sometimes: the stored parameters with one list permuted, or with one entry replaced by a copy of another entry
+		// (same length, duplicates are accepted by the message validation)
+		if cur, err := w.P.PApp.ProviderKeeper.GetConsumerPowerShapingParameters(w.P.Ctx(), ci.ID); err == nil && w.Rnd.Intn(3) == 0 {
+			mut := func(l []string) ([]string, bool) {
+				if len(l) < 2 {
+					return l, false
+				}
+				out := append([]string(nil), l...)
+				i, j := w.Rnd.Intn(len(out)), w.Rnd.Intn(len(out))
+				if w.Rnd.Intn(2) == 0 {
+					out[i], out[j] = out[j], out[i]
+				} else {
+					out[i] = out[j]
+				}
+				return out, true
+			}
+			np := cur
+			var ok1, ok2, ok3 bool
+			np.Prioritylist, ok1 = mut(cur.Prioritylist)
+			if !ok1 || w.Rnd.Intn(2) == 0 {
+				np.Allowlist, ok2 = mut(cur.Allowlist)
+			}
+			if !ok1 && !ok2 {
+				np.Denylist, ok3 = mut(cur.Denylist)
+			}
+			if ok1 || ok2 || ok3 {
+				msg.PowerShapingParameters = &np
+				what = "power-shaping:list-permuted-or-duplicated"
+			}
+		}
 	case 1:
 		if prelaunch && !ci.WantLive {
 			spawn, cls := w.randSpawn()
